@@ -12,7 +12,47 @@ use std::panic::{catch_unwind, AssertUnwindSafe};
 use std::sync::mpsc;
 use std::time::Duration;
 
+#[cfg(not(coarse_hash))]
 type K = usize;
+/// `--cfg coarse_hash`: a key type whose Hash is as coarse as the contract allows (every key hashes alike, Eq is exact).
+/// Used to confirm counterexamples that rest on two different keys having the same hash.
+#[cfg(coarse_hash)]
+#[derive(Clone, Copy, PartialEq, Eq, Debug, PartialOrd, Ord)]
+pub struct K(pub usize);
+#[cfg(coarse_hash)]
+mod coarse_key {
+    use super::K;
+    impl std::hash::Hash for K {
+        fn hash<H: std::hash::Hasher>(&self, s: &mut H) {
+            0usize.hash(s)
+        }
+    }
+    impl std::fmt::Display for K {
+        fn fmt(&self, f: &mut std::fmt::Formatter) -> std::fmt::Result {
+            write!(f, "{}", self.0)
+        }
+    }
+    impl serde::Serialize for K {
+        fn serialize<S: serde::Serializer>(&self, s: S) -> Result<S::Ok, S::Error> {
+            s.serialize_u64(self.0 as u64)
+        }
+    }
+    impl<'de> serde::Deserialize<'de> for K {
+        fn deserialize<D: serde::Deserializer<'de>>(d: D) -> Result<Self, D::Error> {
+            Ok(K(u64::deserialize(d)? as usize))
+        }
+    }
+    impl From<usize> for K {
+        fn from(x: usize) -> K {
+            K(x)
+        }
+    }
+    impl PartialEq<usize> for K {
+        fn eq(&self, o: &usize) -> bool {
+            self.0 == *o
+        }
+    }
+}
 type N = Tracked;
 type E = i64;
 
@@ -91,6 +131,10 @@ impl<'de> serde::Deserialize<'de> for Tracked {
 
 fn us(v: &Value) -> usize {
     v.as_u64().expect("usize") as usize
+}
+/// a key of the scenario
+fn ky(v: &Value) -> K {
+    K::from(us(v))
 }
 fn i6(v: &Value) -> i64 {
     v.as_i64().expect("i64")
@@ -234,7 +278,7 @@ impl FilterTable {
         let mut default = true;
         if let Some(t) = v.get("table").and_then(|t| t.as_array()) {
             for r in t {
-                rows.push((us(&r[0]), us(&r[1]), i6(&r[2]), r[3].as_bool().unwrap()));
+                rows.push((ky(&r[0]), ky(&r[1]), i6(&r[2]), r[3].as_bool().unwrap()));
             }
             default = v.get("default").and_then(|d| d.as_bool()).unwrap_or(true);
         }
@@ -266,7 +310,7 @@ macro_rules! dot_attr_impl {
             let nattr = |n: &Node<K, N, E>| -> Option<Vec<(String, String)>> {
                 if let Some(rows) = spec["nattr"].as_array() {
                     for r in rows {
-                        if us(&r[0]) == *n.key() { return Some(attr_pairs(&r[1])); }
+                        if ky(&r[0]) == *n.key() { return Some(attr_pairs(&r[1])); }
                     }
                 }
                 None
@@ -274,7 +318,7 @@ macro_rules! dot_attr_impl {
             let eattr = |u: &Node<K, N, E>, v: &Node<K, N, E>, _e: &E| -> Option<Vec<(String, String)>> {
                 if let Some(rows) = spec["eattr"].as_array() {
                     for r in rows {
-                        if us(&r[0]) == *u.key() && us(&r[1]) == *v.key() { return Some(attr_pairs(&r[2])); }
+                        if ky(&r[0]) == *u.key() && ky(&r[1]) == *v.key() { return Some(attr_pairs(&r[2])); }
                     }
                 }
                 None
